@@ -58,6 +58,8 @@ def check(ctx):
     from rules import independence
     independence.r28_functions(ctx, [('dataflows.helpers.iterable_loader:iterable_loader.handle_iterable',
                                       {'mode': 'dict / list mode fixed by the first item and asserted for every later item'})])
+    n29 = stream.r29_no_shared_fields(ctx, stream.package_phase_functions(ctx))
+    run.floor('R29', n29, 8, 'schema field stores')
     # 5. unique names
     stream.r27_name_uniqueness(ctx)
     run.trusted += ['LF1', 'LF8 tableschema integer rejects non-integral floats',
